@@ -593,3 +593,446 @@ Proof. intros H. split; [apply rg_save_load_id; exact H| intros; apply rg_save_l
 Theorem rg_reachable_wf v np lim plus s0 hist s :
   rg_construct v np lim plus = RgOk s0 -> rg_run s0 hist = RgOk s -> rg_wf v s.
 Proof. intros H1 H2. eapply rg_run_wf; [eapply rg_construct_wf; exact H1| exact H2]. Qed.
+
+(* ================================================================= G. invariant over iteration histories *)
+Definition rg_nonneg (l : list Q) : Prop := Forall (fun x => 0 <= x) l.
+Definition rg_node (s : rg_rm) (i : nat) : N := nth i (rg_r2i s) 0%N.
+
+(* what the iteration needs from the constructor: decision nodes are looked up correctly and have a coalition left *)
+Record rg_static (s : rg_rm) : Prop := rg_mkstatic {
+  rg_st_lookup : forall i, (i < rg_nrm s)%nat -> rg_lookup (rg_tab s) (rg_node s i) = Some i;
+  rg_st_unused : forall i, (i < rg_nrm s)%nat -> exists a, (a < rg_nc s)%nat /\ tb (rg_node s i) a = false;
+  rg_st_nrm_le : (rg_nrm s <= length (rg_r2i s))%nat }.
+
+Definition rg_used0 (s : rg_rm) (i : nat) (row : list Q) : Prop :=
+  forall a, (a < rg_nc s)%nat -> tb (rg_node s i) a = true -> nth a row 0 == 0.
+
+Record rg_inv (s : rg_rm) : Prop := rg_mkinv {
+  rg_inv_static : rg_static s;
+  rg_inv_reg_len : length (rg_regret s) = rg_nrm s;
+  rg_inv_strat_len : length (rg_strat s) = rg_nrm s;
+  rg_inv_reg : forall i, (i < rg_nrm s)%nat ->
+     length (nth i (rg_regret s) []) = rg_nc s /\
+     (forall a, (a < rg_nc s)%nat -> tb (rg_node s i) a = true -> nth a (nth i (rg_regret s) []) 0 <= 0) /\
+     (rg_plus s = true -> rg_nonneg (nth i (rg_regret s) []));
+  rg_inv_strat : forall i, (i < rg_nrm s)%nat ->
+     length (nth i (rg_strat s) []) = rg_nc s /\ rg_nonneg (nth i (rg_strat s) []) /\ rg_used0 s i (nth i (rg_strat s) []) }.
+
+Lemma rg_ok_inj {A} (a b : A) : RgOk a = RgOk b -> a = b.
+Proof. intros H. congruence. Qed.
+
+(* ---- list helpers *)
+Lemma rg_nth_nonneg l : rg_nonneg l -> forall i, 0 <= nth i l 0.
+Proof.
+  induction 1 as [|x l Hx Hl IH]; intros [|i]; simpl; try lra; auto.
+Qed.
+
+Lemma rg_upd_length {A} (x : A) l : forall i, length (rg_upd i x l) = length l.
+Proof. induction l as [|y l IH]; intros [|i]; simpl; auto. Qed.
+
+Lemma rg_upd_nth_same {A} (x : A) d l : forall i, (i < length l)%nat -> nth i (rg_upd i x l) d = x.
+Proof. induction l as [|y l IH]; intros [|i] H; simpl in *; try lia; auto. apply IH. lia. Qed.
+
+Lemma rg_upd_nth_other {A} (x : A) d l : forall i j, i <> j -> nth j (rg_upd i x l) d = nth j l d.
+Proof. induction l as [|y l IH]; intros [|i] [|j] H; simpl; try congruence; auto. Qed.
+
+Lemma rg_upd_Forall {A} (P : A -> Prop) x l : P x -> Forall P l -> forall i, Forall P (rg_upd i x l).
+Proof.
+  intros Hx Hl. induction Hl as [|y l Hy Hl IH]; intros [|i]; simpl; constructor; auto.
+Qed.
+
+Lemma rg_write_all_length {A} (ws : list (nat * A)) : forall l, length (rg_write_all ws l) = length l.
+Proof.
+  unfold rg_write_all. induction ws as [|w ws IH]; intros l; simpl; [reflexivity|].
+  rewrite IH. apply rg_upd_length.
+Qed.
+
+Lemma rg_write_all_Forall {A} (P : A -> Prop) (ws : list (nat * A)) :
+  Forall P (map snd ws) -> forall l, Forall P l -> Forall P (rg_write_all ws l).
+Proof.
+  unfold rg_write_all. induction ws as [|w ws IH]; intros Hw l Hl; simpl; [exact Hl|].
+  inversion Hw; subst. apply IH; [assumption|]. apply rg_upd_Forall; assumption.
+Qed.
+
+Lemma rg_write_all_nth_other {A} (ws : list (nat * A)) d a :
+  ~ In a (map fst ws) -> forall l, nth a (rg_write_all ws l) d = nth a l d.
+Proof.
+  unfold rg_write_all. induction ws as [|w ws IH]; intros Hn l; simpl; [reflexivity|].
+  rewrite IH by (intro; apply Hn; right; assumption).
+  apply rg_upd_nth_other. intro E. apply Hn. left. exact E.
+Qed.
+
+Lemma rg_Forall_snd_combine {A B} (P : B -> Prop) (a : list A) : forall b, Forall P b -> Forall P (map snd (combine a b)).
+Proof.
+  induction a as [|x a IH]; intros b Hb; simpl; [constructor|].
+  destruct b as [|y b]; simpl; [constructor|]. inversion Hb; subst. constructor; auto.
+Qed.
+
+Lemma rg_In_fst_combine {A B} (a : list A) x : forall b : list B, In x (map fst (combine a b)) -> In x a.
+Proof.
+  induction a as [|y a IH]; intros b H; simpl in *; [exact H|].
+  destruct b as [|z b]; simpl in *; [destruct H|]. destruct H as [H|H]; [left; exact H| right; eapply IH; exact H].
+Qed.
+
+Lemma rg_map2_Forall {A B C} (P : C -> Prop) (f : A -> B -> C) a : forall b,
+  (forall x y, In x a -> In y b -> P (f x y)) -> Forall P (rg_map2 f a b).
+Proof.
+  induction a as [|x a IH]; intros [|y b] H; simpl; constructor.
+  - apply H; left; reflexivity.
+  - apply IH. intros u v Hu Hv. apply H; right; assumption.
+Qed.
+
+Lemma rg_map2_length {A B C} (f : A -> B -> C) a : forall b, length (rg_map2 f a b) = Nat.min (length a) (length b).
+Proof. induction a as [|x a IH]; intros [|y b]; simpl; auto. Qed.
+
+Lemma rg_map2_nth {A B C} (f : A -> B -> C) da db dc a : forall b i,
+  (i < length a)%nat -> (i < length b)%nat -> nth i (rg_map2 f a b) dc = f (nth i a da) (nth i b db).
+Proof.
+  induction a as [|x a IH]; intros [|y b] [|i] Ha Hb; simpl in *; try lia; auto. apply IH; lia.
+Qed.
+
+Lemma rg_dot_nonneg a : forall b, rg_nonneg a -> rg_nonneg b -> 0 <= rg_dot a b.
+Proof.
+  induction a as [|x a IH]; intros [|y b] Ha Hb; simpl; try lra.
+  inversion Ha; inversion Hb; subst.
+  assert (0 <= x * y) by (apply Qmult_le_0_compat; assumption).
+  assert (0 <= rg_dot a b) by (apply IH; assumption). lra.
+Qed.
+
+Lemma rg_zeros_nonneg k : rg_nonneg (rg_zeros k).
+Proof. unfold rg_zeros. induction k; simpl; constructor; auto. lra. Qed.
+
+Lemma rg_nth_zeros k a : nth a (rg_zeros k) 0 = 0.
+Proof. unfold rg_zeros. revert a. induction k; intros [|a]; simpl; auto. Qed.
+
+Lemma rg_nth_zeros2 r c j : (j < r)%nat -> nth j (rg_zeros2 r c) [] = rg_zeros c.
+Proof. unfold rg_zeros2. revert j. induction r; intros [|j] H; simpl; try lia; auto. apply IHr. lia. Qed.
+
+(* ---- folds in the error monad *)
+Lemma rg_fold_err {S} (f : S -> nat -> rg_out S) l : forall e, (forall a, e <> RgOk a) ->
+  fold_left (fun acc i => rg_bind acc (fun st => f st i)) l e = e.
+Proof.
+  induction l as [|x l IH]; intros e He; simpl; [reflexivity|].
+  destruct e; try (apply IH; intros a; discriminate). exfalso. eapply He. reflexivity.
+Qed.
+
+Lemma rg_fold_inv {S} (P : S -> Prop) (f : S -> nat -> rg_out S) : forall l init res,
+  P init ->
+  (forall st i st', In i l -> P st -> f st i = RgOk st' -> P st') ->
+  fold_left (fun acc i => rg_bind acc (fun st => f st i)) l (RgOk init) = RgOk res -> P res.
+Proof.
+  induction l as [|x l IH]; intros init res Hi Hstep H; simpl in H.
+  - inversion H; subst; exact Hi.
+  - destruct (f init x) as [st'| | |] eqn:E.
+    + apply (IH st' res); [eapply Hstep; [left; reflexivity| exact Hi| exact E]| |exact H].
+      intros st i st'' Hin. apply Hstep. right. exact Hin.
+    + rewrite rg_fold_err in H by (intros a; discriminate). discriminate.
+    + rewrite rg_fold_err in H by (intros a; discriminate). discriminate.
+    + rewrite rg_fold_err in H by (intros a; discriminate). discriminate.
+Qed.
+
+(* ---- strategies of decision nodes under the invariant *)
+Lemma rg_inv_strategy s i : rg_inv s -> (i < rg_nrm s)%nat ->
+  exists sg, rg_strategy s (rg_node s i) = RgOk sg /\ length sg = rg_nc s /\ rg_nonneg sg /\ qsum sg == 1 /\ rg_used0 s i sg.
+Proof.
+  intros Hinv Hi. destruct Hinv as [Hst Hrl Hsl Hreg Hstr]. destruct (Hreg i Hi) as [Hlen [Hused _]].
+  destruct (rg_strategy_distribution (rg_nc s) (rg_node s i) (nth i (rg_regret s) []) Hlen
+              (rg_st_unused s Hst i Hi) Hused) as [sg [E1 [E2 [E3 [E4 E5]]]]].
+  exists sg. unfold rg_strategy. rewrite (rg_st_lookup s Hst i Hi). cbn [rg_of_option rg_bind].
+  rewrite (nth_error_nth' (rg_regret s) [] (n := i)) by lia. cbn [rg_of_option rg_bind].
+  split; [exact E1|]. split; [exact E2|]. split; [apply Forall_forall; exact E3|]. split; [exact E4| exact E5].
+Qed.
+
+Lemma rg_nth_error_node s i : rg_static s -> (i < rg_nrm s)%nat -> nth_error (rg_r2i s) i = Some (rg_node s i).
+Proof. intros Hst Hi. apply nth_error_nth'. pose proof (rg_st_nrm_le s Hst). lia. Qed.
+
+(* ---- top-down pass: reach probabilities stay non-negative *)
+Lemma rg_down_step_nonneg s reach i reach' :
+  rg_inv s -> (i < rg_nrm s)%nat -> rg_nonneg reach -> rg_down_step s reach i = RgOk reach' -> rg_nonneg reach'.
+Proof.
+  intros Hinv Hi Hr. unfold rg_down_step.
+  rewrite (rg_nth_error_node s i (rg_inv_static s Hinv) Hi). cbn [rg_of_option rg_bind].
+  destruct (rg_child_ranks s (rg_node s i) _) as [ranks| | |]; cbn [rg_bind]; try discriminate.
+  destruct (rg_inv_strategy s i Hinv Hi) as [sg [E [_ [Hsg _]]]]. rewrite E. cbn [rg_bind].
+  intros H. apply rg_ok_inj in H. subst reach'.
+  apply rg_write_all_Forall; [|exact Hr]. apply rg_Forall_snd_combine. apply rg_map2_Forall.
+  intros r a _ _. cbv beta. rewrite Qred_correct.
+  pose proof (rg_nth_nonneg reach Hr r). pose proof (rg_nth_nonneg reach Hr i). pose proof (rg_nth_nonneg sg Hsg a).
+  assert (0 <= nth i reach 0 * nth a sg 0) by (apply Qmult_le_0_compat; assumption). lra.
+Qed.
+
+Lemma rg_down_nonneg s reach : rg_inv s -> rg_down s = RgOk reach -> rg_nonneg reach.
+Proof.
+  intros Hinv. unfold rg_down. apply (rg_fold_inv rg_nonneg).
+  - apply rg_upd_Forall; [lra| apply rg_zeros_nonneg].
+  - intros st i st' Hin Hst. apply in_seq in Hin. apply rg_down_step_nonneg; [exact Hinv| lia| exact Hst].
+Qed.
+
+(* ---- bottom-up pass *)
+Definition rg_up_ok (s : rg_rm) (st : rg_up_state) : Prop :=
+  let '(exl, qs, strat) := st in
+  rg_nonneg exl /\ length exl = length (rg_r2i s) /\
+  length qs = rg_nrm s /\
+  (forall j, (j < rg_nrm s)%nat -> length (nth j qs []) = rg_nc s /\ rg_used0 s j (nth j qs [])) /\
+  length strat = rg_nrm s /\
+  (forall j, (j < rg_nrm s)%nat ->
+     length (nth j strat []) = rg_nc s /\ rg_nonneg (nth j strat []) /\ rg_used0 s j (nth j strat [])).
+
+Lemma rg_children_unused nc m a : In a (rg_children nc m) -> tb m a = false.
+Proof. unfold rg_children. intros H. apply filter_In in H. destruct H as [_ H]. apply negb_true_iff in H. exact H. Qed.
+
+Lemma rg_up_step_ok s reach w st i st' :
+  rg_inv s -> (i < rg_nrm s)%nat -> rg_nonneg reach -> 0 <= w -> rg_up_ok s st ->
+  rg_up_step s reach w st i = RgOk st' -> rg_up_ok s st'.
+Proof.
+  intros Hinv Hi Hr Hw. destruct st as [[exl qs] strat]. intros [Hex [Hexl [Hql [Hqr [Hsl Hsr]]]]].
+  unfold rg_up_step.
+  rewrite (rg_nth_error_node s i (rg_inv_static s Hinv) Hi). cbn [rg_of_option rg_bind].
+  destruct (rg_child_ranks s (rg_node s i) _) as [ranks| | |]; cbn [rg_bind]; try discriminate.
+  destruct (rg_inv_strategy s i Hinv Hi) as [sg [E [Hlsg [Hsg [_ Husg]]]]]. rewrite E. cbn [rg_bind].
+  rewrite (nth_error_nth' strat [] (n := i)) by lia. cbn [rg_of_option rg_bind].
+  set (pids := rg_children (rg_nc s) (rg_node s i)).
+  set (qrow := rg_write_all (combine pids (map (fun r => nth r exl 0) ranks)) (rg_zeros (rg_nc s))).
+  intros H. apply rg_ok_inj in H. subst st'.
+  assert (Hqnn : rg_nonneg qrow).
+  { apply rg_write_all_Forall; [|apply rg_zeros_nonneg]. apply rg_Forall_snd_combine.
+    apply Forall_forall. intros x Hx. apply in_map_iff in Hx. destruct Hx as [r [<- _]]. apply rg_nth_nonneg. exact Hex. }
+  assert (Hqlen : length qrow = rg_nc s).
+  { unfold qrow. rewrite rg_write_all_length. unfold rg_zeros. apply repeat_length. }
+  assert (Hqused : rg_used0 s i qrow).
+  { intros a Ha Ht. unfold qrow. rewrite rg_write_all_nth_other; [rewrite rg_nth_zeros; reflexivity|].
+    intro Hin. apply rg_In_fst_combine in Hin. apply rg_children_unused in Hin. congruence. }
+  destruct (Hsr i Hi) as [Hsrl [Hsrn Hsru]].
+  unfold rg_up_ok. split; [|split; [|split; [|split; [|split]]]].
+  - apply rg_upd_Forall; [|exact Hex]. cbv beta. rewrite Qred_correct. apply rg_dot_nonneg; assumption.
+  - rewrite rg_upd_length. exact Hexl.
+  - rewrite rg_upd_length. exact Hql.
+  - intros j Hj. destruct (Nat.eq_dec i j) as [<-|Hne].
+    + rewrite rg_upd_nth_same by lia. split; assumption.
+    + rewrite rg_upd_nth_other by exact Hne. apply Hqr. exact Hj.
+  - rewrite rg_upd_length. exact Hsl.
+  - intros j Hj. destruct (Nat.eq_dec i j) as [<-|Hne].
+    + rewrite rg_upd_nth_same by lia. split; [|split].
+      * rewrite rg_map2_length. lia.
+      * apply rg_map2_Forall. intros c x Hc Hx. cbv beta. rewrite Qred_correct.
+        unfold rg_nonneg in Hsrn, Hsg. rewrite Forall_forall in Hsrn, Hsg.
+        pose proof (Hsrn c Hc). pose proof (Hsg x Hx). pose proof (rg_nth_nonneg reach Hr i).
+        assert (0 <= w * x) by (apply Qmult_le_0_compat; assumption).
+        assert (0 <= w * x * nth i reach 0) by (apply Qmult_le_0_compat; assumption). lra.
+      * intros a Ha Ht. rewrite (rg_map2_nth _ 0 0 0) by lia. rewrite Qred_correct.
+        rewrite (Hsru a Ha Ht), (Husg a Ha Ht). ring.
+    + rewrite rg_upd_nth_other by exact Hne. apply Hsr. exact Hj.
+Qed.
+
+Lemma rg_up_ok_result s reach w exl0 st :
+  rg_inv s -> rg_nonneg reach -> 0 <= w -> rg_nonneg exl0 -> length exl0 = length (rg_r2i s) ->
+  rg_up s reach w exl0 = RgOk st -> rg_up_ok s st.
+Proof.
+  intros Hinv Hr Hw Hex Hl. unfold rg_up. apply (rg_fold_inv (rg_up_ok s)).
+  - unfold rg_up_ok. split; [exact Hex|]. split; [exact Hl|]. split; [unfold rg_zeros2; apply repeat_length|].
+    split; [|split; [apply (rg_inv_strat_len s Hinv)| apply (rg_inv_strat s Hinv)]].
+    intros j Hj. rewrite rg_nth_zeros2 by exact Hj. split; [unfold rg_zeros; apply repeat_length|].
+    intros a _ _. rewrite rg_nth_zeros. reflexivity.
+  - intros st0 i st' Hin Hok. apply in_rev in Hin. apply in_seq in Hin.
+    apply rg_up_step_ok; [exact Hinv| lia| exact Hr| exact Hw| exact Hok].
+Qed.
+
+(* ---- regret update *)
+Lemma rg_regret_update_length plus reg : forall qs exl,
+  length (rg_regret_update plus reg qs exl) = Nat.min (length reg) (Nat.min (length qs) (length exl)).
+Proof.
+  induction reg as [|r reg IH]; intros [|q qs] [|e exl]; simpl; auto.
+Qed.
+
+Lemma rg_regret_update_nth plus reg : forall qs exl i,
+  (i < length reg)%nat -> (i < length qs)%nat -> (i < length exl)%nat ->
+  nth i (rg_regret_update plus reg qs exl) [] = rg_regret_row plus (nth i reg []) (nth i qs []) (nth i exl 0).
+Proof.
+  induction reg as [|r reg IH]; intros [|q qs] [|e exl] [|i] H1 H2 H3; simpl in *; try lia; auto.
+  apply IH; lia.
+Qed.
+
+Lemma rg_iteration_inv s t u s' :
+  rg_iteration s t u = RgOk s' ->
+  exists ur reach exl qs strat,
+    rg_down s = RgOk reach /\
+    rg_up s reach (if rg_plus s then inject_Z (Z.of_nat (S (rg_iter s))) else 1)
+          (rg_write_all (combine ur t) (rg_zeros (length (rg_r2i s)))) = RgOk (exl, qs, strat) /\
+    s' = rg_with_arrays s (S (rg_iter s)) (rg_regret_update (rg_plus s) (rg_regret s) qs exl) strat.
+Proof.
+  unfold rg_iteration. destruct (rg_mapM _ u) as [ur| | |]; cbn [rg_bind]; try discriminate.
+  destruct (negb _); [discriminate|].
+  destruct (rg_down s) as [reach| | |]; cbn [rg_bind]; try discriminate.
+  destruct (rg_up s reach _ _) as [[[exl qs] st]| | |] eqn:E; cbn [rg_bind]; try discriminate.
+  intros H. inversion H. exists ur, reach, exl, qs, st. split; [reflexivity|]. split; [exact E| reflexivity].
+Qed.
+
+(* rm_invariant, one iteration *)
+Theorem rg_rm_invariant_step s terminal used s' :
+  rg_inv s -> rg_nonneg terminal -> rg_iteration s terminal used = RgOk s' -> rg_inv s'.
+Proof.
+  intros Hinv Ht H. apply rg_iteration_inv in H.
+  destruct H as [ur [reach [exl [qs [strat [Hd [Hu ->]]]]]]].
+  pose proof (rg_down_nonneg s reach Hinv Hd) as Hr.
+  assert (Hw : 0 <= (if rg_plus s then inject_Z (Z.of_nat (S (rg_iter s))) else 1)).
+  { destruct (rg_plus s); [|lra]. unfold Qle, inject_Z. simpl. lia. }
+  assert (Hok : rg_up_ok s (exl, qs, strat)).
+  { eapply rg_up_ok_result; [exact Hinv| exact Hr| exact Hw| | |exact Hu].
+    - apply rg_write_all_Forall; [|apply rg_zeros_nonneg]. apply rg_Forall_snd_combine. exact Ht.
+    - rewrite rg_write_all_length. unfold rg_zeros. apply repeat_length. }
+  destruct Hok as [Hex [Hexl [Hql [Hqr [Hsl Hsr]]]]].
+  pose proof (rg_inv_static s Hinv) as Hst. pose proof (rg_st_nrm_le s Hst) as Hle.
+  pose proof (rg_inv_reg_len s Hinv) as Hrl.
+  constructor; cbn [rg_with_arrays rg_nrm rg_nc rg_regret rg_strat rg_plus rg_r2i rg_tab].
+  - destruct Hst as [A B C]. constructor; assumption.
+  - rewrite rg_regret_update_length. lia.
+  - exact Hsl.
+  - intros i Hi. change (rg_node (rg_with_arrays s (S (rg_iter s)) (rg_regret_update (rg_plus s) (rg_regret s) qs exl) strat) i)
+      with (rg_node s i).
+    rewrite rg_regret_update_nth by lia.
+    destruct (rg_inv_reg s Hinv i Hi) as [Hlen [Hused Hplus]]. destruct (Hqr i Hi) as [Hqlen Hqused].
+    unfold rg_regret_row. split; [rewrite rg_map2_length; lia|]. split.
+    + intros a Ha Htb. rewrite (rg_map2_nth _ 0 0 0) by lia. cbv zeta.
+      pose proof (Hused a Ha Htb) as H1. pose proof (Hqused a Ha Htb) as H2. pose proof (rg_nth_nonneg exl Hex i) as H3.
+      assert (Hx : Qred (nth a (nth i (rg_regret s) []) 0 + (nth a (nth i qs []) 0 - nth i exl 0)) <= 0)
+        by (rewrite Qred_correct, H2; lra).
+      destruct (rg_plus s); [rewrite rg_pos_of_nonpos by exact Hx; lra| exact Hx].
+    + intros Hp. rewrite Hp. apply rg_map2_Forall. intros c q _ _. cbv beta zeta. apply rg_pos_nonneg.
+  - intros i Hi. apply (Hsr i Hi).
+Qed.
+
+Theorem rg_rm_invariant hist : forall s s',
+  rg_inv s -> Forall (fun tu => rg_nonneg (fst tu)) hist -> rg_run s hist = RgOk s' -> rg_inv s'.
+Proof.
+  induction hist as [|[t u] hist IH]; intros s s' Hinv Hh H; simpl in H.
+  - inversion H; subst; exact Hinv.
+  - inversion Hh as [|? ? Ht Hh']; subst. simpl in Ht.
+    destruct (rg_iteration s t u) as [s1| | |] eqn:E; cbn [rg_bind] in H; try discriminate.
+    apply (IH s1 s'); [eapply rg_rm_invariant_step; eauto| exact Hh'| exact H].
+Qed.
+
+(* ================================================================= H. the constructor establishes the invariant *)
+Lemma rg_NoDup_rank_to_id nc lim : NoDup (rg_rank_to_id nc lim).
+Proof.
+  rewrite rg_rank_to_id_eq. apply rg_NoDup_map_in; [|apply rg_NoDup_all_combs].
+  intros c1 c2 H1 H2. apply rg_in_all_combs in H1. apply rg_in_all_combs in H2.
+  apply (rg_mask_of_inj_subseq nc); tauto.
+Qed.
+
+Lemma rg_lookup_ById ids r : NoDup ids -> (r < length ids)%nat ->
+  rg_lookup (rg_mktable (rg_table_len ById ids) ids) (nth r ids 0%N) = Some r.
+Proof.
+  intros Hnd Hr. unfold rg_lookup. cbn [rg_tlen rg_tids].
+  assert (Hin : In (nth r ids 0%N) ids) by (apply nth_In; exact Hr).
+  assert (E : (nth r ids 0 <? rg_table_len ById ids)%N = true).
+  { apply N.ltb_lt. simpl. pose proof (rg_max_ge _ _ Hin). lia. }
+  rewrite E. f_equal. apply rg_find_nth; assumption.
+Qed.
+
+Lemma rg_fold_add_acc l : forall acc, fold_right Nat.add acc l = (fold_right Nat.add O l + acc)%nat.
+Proof. induction l as [|x l IH]; intros acc; simpl; [reflexivity|]. rewrite IH. lia. Qed.
+
+Lemma rg_count_below_S nc k : rg_count_below nc (S k) = (rg_count_below nc k + rg_binom nc k)%nat.
+Proof.
+  unfold rg_count_below. rewrite seq_S, map_app, fold_right_app. simpl.
+  rewrite rg_fold_add_acc. lia.
+Qed.
+
+Lemma rg_all_combs_S nc L : rg_all_combs nc (S L) = rg_all_combs nc L ++ rg_combs (seq 0 nc) (S L).
+Proof.
+  unfold rg_all_combs. replace (S L + 1)%nat with (S (L + 1)) by lia.
+  rewrite seq_S, map_app, concat_app. simpl. rewrite app_nil_r. replace (L + 1)%nat with (S L) by lia. reflexivity.
+Qed.
+
+Lemma rg_all_combs_length nc L : length (rg_all_combs nc L) = rg_count_below nc (S L).
+Proof.
+  induction L as [|L IH].
+  - unfold rg_all_combs. cbn [Nat.add seq map concat]. rewrite app_nil_r, rg_combs_0. unfold rg_count_below. cbn [seq map fold_right]. destruct nc; reflexivity.
+  - rewrite rg_all_combs_S, app_length, IH, rg_combs_length, seq_length. rewrite (rg_count_below_S nc (S L)). reflexivity.
+Qed.
+
+Lemma rg_forallb_false_ex {A} (f : A -> bool) l : forallb f l = false -> exists x, In x l /\ f x = false.
+Proof.
+  induction l as [|x l IH]; simpl; [discriminate|]. destruct (f x) eqn:E.
+  - intros H. destruct (IH H) as [y [Hy Ey]]. exists y. split; [right; exact Hy| exact Ey].
+  - intros _. exists x. split; [left; reflexivity| exact E].
+Qed.
+
+Lemma rg_filter_all {A} (f : A -> bool) l : forallb f l = true -> filter f l = l.
+Proof.
+  induction l as [|x l IH]; simpl; [reflexivity|]. destruct (f x); [|discriminate]. intros H. rewrite IH; auto.
+Qed.
+
+(* a decision node (rank below number_of_regret_minimizers) has fewer than L <= nc coalitions, so one is left *)
+Lemma rg_decision_node nc L i :
+  (L <= nc)%nat -> (i < rg_count_below nc L)%nat ->
+  (rg_count_below nc L <= length (rg_rank_to_id nc L))%nat /\
+  exists a, (a < nc)%nat /\ tb (nth i (rg_rank_to_id nc L) 0%N) a = false.
+Proof.
+  intros HL Hi. destruct L as [|L]; [unfold rg_count_below in Hi; simpl in Hi; lia|].
+  rewrite rg_rank_to_id_eq. replace (Nat.min nc (S L)) with (S L) by lia.
+  rewrite rg_all_combs_S, map_app. rewrite <- rg_all_combs_length in *.
+  split; [rewrite app_length, !map_length; lia|].
+  rewrite app_nth1 by (rewrite map_length; exact Hi).
+  rewrite (nth_indep _ 0%N (rg_mask_of [])) by (rewrite map_length; exact Hi). rewrite map_nth.
+  set (c := nth i (rg_all_combs nc L) []).
+  assert (Hc : In c (rg_all_combs nc L)) by (apply nth_In; exact Hi).
+  apply rg_in_all_combs in Hc. destruct Hc as [Hs Hl].
+  destruct (forallb (tb (rg_mask_of c)) (seq 0 nc)) eqn:E.
+  - exfalso. pose proof (rg_size_mask_of nc c Hs) as Hsz. unfold size, players in Hsz.
+    rewrite rg_filter_all in Hsz by exact E. rewrite seq_length in Hsz. lia.
+  - apply rg_forallb_false_ex in E. destruct E as [a [Ha Ea]]. exists a. apply in_seq in Ha. split; [lia| exact Ea].
+Qed.
+
+Lemma rg_zero_row_facts k : forall a, nth a (rg_zeros k) 0 == 0.
+Proof. intros a. rewrite rg_nth_zeros. reflexivity. Qed.
+
+(* the repaired constructor (table by id; limit clamped, or any limit within the number of coalitions) yields a state
+   satisfying the invariant, for every number of coalitions and every limit >= 1 *)
+Theorem rg_constructor_inv clamp np nc lim plus s :
+  (1 <= lim)%nat -> (clamp = true \/ (lim <= nc)%nat) ->
+  rg_mk (rg_mkvariant ById clamp) np nc lim plus = RgOk s -> rg_inv s.
+Proof.
+  intros H1 Hc. unfold rg_mk. cbn [rg_pol rg_clamp]. rewrite rg_mk_table_ById.
+  set (L := if clamp then Nat.min lim nc else lim).
+  assert (HL : (L <= nc)%nat) by (unfold L; destruct clamp; [lia| destruct Hc; [discriminate| lia]]).
+  intros H. apply rg_ok_inj in H. subst s.
+  assert (Hst : rg_static (rg_mkrm np nc L plus (rg_rank_to_id nc L) (rg_mktable (rg_table_len ById (rg_rank_to_id nc L)) (rg_rank_to_id nc L))
+                                   (rg_count_below nc L) (rg_player_id_map np) (rg_zeros2 (rg_count_below nc L) nc)
+                                   (rg_zeros2 (rg_count_below nc L) nc) 0)).
+  { constructor; cbn [rg_nrm rg_tab rg_nc rg_r2i]; unfold rg_node; cbn [rg_r2i].
+    - intros i Hi. apply rg_lookup_ById; [apply rg_NoDup_rank_to_id|].
+      destruct (rg_decision_node nc L i HL Hi) as [Hle _]. lia.
+    - intros i Hi. apply (rg_decision_node nc L i HL Hi).
+    - destruct (Nat.eq_dec (rg_count_below nc L) 0) as [E|E]; [lia|].
+      apply (rg_decision_node nc L 0 HL). lia. }
+  constructor; cbn [rg_nrm rg_nc rg_regret rg_strat rg_plus]; try exact Hst.
+  - unfold rg_zeros2. apply repeat_length.
+  - unfold rg_zeros2. apply repeat_length.
+  - intros i Hi. rewrite rg_nth_zeros2 by exact Hi. split; [unfold rg_zeros; apply repeat_length|]. split.
+    + intros a _ _. rewrite rg_nth_zeros. lra.
+    + intros _. apply rg_zeros_nonneg.
+  - intros i Hi. rewrite rg_nth_zeros2 by exact Hi. split; [unfold rg_zeros; apply repeat_length|]. split.
+    + apply rg_zeros_nonneg.
+    + intros a _ _. rewrite rg_nth_zeros. reflexivity.
+Qed.
+
+(* rm_invariant in the form of the property: after any history with non-negative terminal values, at every decision node
+   the current strategy is a probability distribution that never plays an already revealed coalition, the regret of
+   revealed coalitions is non-positive and the plus variant keeps all regrets non-negative *)
+Theorem rg_rm_invariant_full clamp np nc lim plus s0 hist s :
+  (1 <= lim)%nat -> (clamp = true \/ (lim <= nc)%nat) ->
+  rg_mk (rg_mkvariant ById clamp) np nc lim plus = RgOk s0 ->
+  Forall (fun tu => rg_nonneg (fst tu)) hist ->
+  rg_run s0 hist = RgOk s ->
+  forall i, (i < rg_nrm s)%nat ->
+    (exists sg, rg_strategy s (rg_node s i) = RgOk sg /\ length sg = rg_nc s /\ rg_nonneg sg /\ qsum sg == 1 /\ rg_used0 s i sg) /\
+    (forall a, (a < rg_nc s)%nat -> tb (rg_node s i) a = true -> nth a (nth i (rg_regret s) []) 0 <= 0) /\
+    (rg_plus s = true -> rg_nonneg (nth i (rg_regret s) [])).
+Proof.
+  intros H1 Hc Hmk Hh Hrun i Hi.
+  assert (Hinv : rg_inv s).
+  { eapply rg_rm_invariant; [|exact Hh| exact Hrun]. eapply rg_constructor_inv; eauto. }
+  split; [apply rg_inv_strategy; assumption|].
+  destruct (rg_inv_reg s Hinv i Hi) as [_ [A B]]. split; assumption.
+Qed.
